@@ -2,48 +2,111 @@ package main
 
 // Translator generator C16PypiEnv: data of util/resolve/pypi that the Lean
 // marker model iterates over (never algorithms):
-//   - internal.Markers (env.gen.go): the fixed target environment
-//   - environmentVariables (markers.go): key -> markerVar{name, value}
-//   - markerOp constants in iota order, their String() texts (markerop_string.go)
-//   - markerOpsByLength (markers.go)
+//   - internal.Markers: the fixed target environment
+//   - environmentVariables: key -> markerVar{name, value}
+//   - the marker operator constants by value, their String() texts
+//   - markerOpsByLength
+//
+// Nothing is found by the name of an unexported identifier, by a file name or by the
+// shape of a const block:
+//   - the environment (both tables) is the VALUE the linked code holds at run time
+//     (hook pypi.VerifEnvironment), whatever way the source builds it;
+//   - the operator type and the by-length table are found by role in the type-checked
+//     package: the one package-level variable that is a slice of a package-local integer
+//     type with constants;
+//   - the constants and the elements of the table are evaluated by go/types (iota,
+//     explicit values, named or converted constants alike);
+//   - the String() texts are read from the String method of that type, in whichever
+//     of the usual forms it is written (stringer's name/index tables, a switch over
+//     the constants, a keyed table).
+// The labels in `opNames` (the wire names between harness and driver, and the names the
+// model's `opLess`… are checked against) are the PEP 508 operator each value prints as,
+// not the identifier /repo happens to give the constant.
+//
+// NOT covered (would need a hook, see below): a by-length table that is not a literal of
+// constants (built in init() or by a helper), a String method of another form.
+// Hook that would make both a run-time reading, to be added to
+// /repo/util/resolve/pypi/verif_on.go:
+//
+//	// VerifMarkerOps returns markerOpsByLength as integers and markerOp(v).String() for v = 0..n-1.
+//	func VerifMarkerOps(n int) (byLength []int, texts []string)
 
 import (
 	rpypi "deps.dev/util/resolve/pypi"
 	"fmt"
 	"go/ast"
-	"go/parser"
-	"go/token"
+	"go/constant"
+	"go/types"
 	"path/filepath"
 	"sort"
 	"strconv"
 	"strings"
 
+	"golang.org/x/tools/go/packages"
 	"verifharness/fw"
 )
 
 type pypiFacts struct {
 	Markers   map[string]string
-	EnvVars   [][3]string // key, name, value (source order)
-	OpNames   []string    // markerOp constant names in iota order
+	EnvVars   [][3]string // key, name, value (sorted by key)
+	OpNames   []string    // label of each operator value (by the PEP 508 operator it prints as)
 	OpStrings []string    // String() of each
 	ByLength  []int       // markerOpsByLength as markerOp values
 }
 
-func parseFile(path string) (*ast.File, error) {
-	return parser.ParseFile(token.NewFileSet(), path, nil, parser.ParseComments)
+// pep508Ops: the label under which an operator is known to the harness, the driver and
+// the model, by its text.
+var pep508Ops = map[string]string{
+	"<=": "markerOpLessEqual", "<": "markerOpLess", "!=": "markerOpNotEqual", "==": "markerOpEqualEqual",
+	">=": "markerOpGreaterEqual", ">": "markerOpGreater", "~=": "markerOpTildeEqual", "===": "markerOpEqualEqualEqual",
+	"in": "markerOpIn", "not in": "markerOpNotIn",
 }
 
-func findValue(f *ast.File, tok token.Token, name string) ast.Expr {
-	for _, d := range f.Decls {
-		gd, ok := d.(*ast.GenDecl)
-		if !ok || gd.Tok != tok {
+// localIntType returns t as a named type declared in p with an integer underlying type.
+func localIntType(p *packages.Package, t types.Type) *types.Named {
+	nt, ok := t.(*types.Named)
+	if !ok || nt.Obj().Pkg() != p.Types {
+		return nil
+	}
+	if b, ok := nt.Underlying().(*types.Basic); !ok || b.Info()&types.IsInteger == 0 {
+		return nil
+	}
+	return nt
+}
+
+// constsOf: value -> names of the package-level constants of type t (declaration order
+// within one value is the scope's, i.e. alphabetical; only used for messages).
+func constsOf(p *packages.Package, t *types.Named) map[int64][]string {
+	out := map[int64][]string{}
+	for _, n := range p.Types.Scope().Names() {
+		c, ok := p.Types.Scope().Lookup(n).(*types.Const)
+		if !ok || !types.Identical(c.Type(), t) {
 			continue
 		}
-		for _, s := range gd.Specs {
-			vs := s.(*ast.ValueSpec)
-			for i, n := range vs.Names {
-				if n.Name == name && i < len(vs.Values) {
-					return vs.Values[i]
+		if v, ok := constant.Int64Val(constant.ToInt(c.Val())); ok {
+			out[v] = append(out[v], n)
+		}
+	}
+	return out
+}
+
+// varInit returns the initialiser expression of a package-level variable.
+func varInit(p *packages.Package, o types.Object) ast.Expr {
+	for _, f := range p.Syntax {
+		for _, d := range f.Decls {
+			gd, ok := d.(*ast.GenDecl)
+			if !ok {
+				continue
+			}
+			for _, s := range gd.Specs {
+				vs, ok := s.(*ast.ValueSpec)
+				if !ok {
+					continue
+				}
+				for i, n := range vs.Names {
+					if p.TypesInfo.Defs[n] == o && i < len(vs.Values) {
+						return vs.Values[i]
+					}
 				}
 			}
 		}
@@ -51,202 +114,248 @@ func findValue(f *ast.File, tok token.Token, name string) ast.Expr {
 	return nil
 }
 
-func strLit(e ast.Expr) (string, bool) {
-	bl, ok := e.(*ast.BasicLit)
-	if !ok || bl.Kind != token.STRING {
-		return "", false
+// intElems evaluates a composite literal of constant integers (positional or with
+// constant index keys, as long as every position is given).
+func intElems(p *packages.Package, e ast.Expr) ([]int, bool) {
+	cl, ok := ast.Unparen(e).(*ast.CompositeLit)
+	if !ok {
+		return nil, false
 	}
-	s, err := strconv.Unquote(bl.Value)
-	return s, err == nil
+	at := map[int]int{}
+	next := 0
+	for _, el := range cl.Elts {
+		val := el
+		if kv, ok := el.(*ast.KeyValueExpr); ok {
+			k, ok := fw.EvalInt(p, kv.Key)
+			if !ok {
+				return nil, false
+			}
+			next, val = int(k), kv.Value
+		}
+		v, ok := fw.EvalInt(p, val)
+		if !ok {
+			return nil, false
+		}
+		if _, dup := at[next]; dup {
+			return nil, false
+		}
+		at[next] = int(v)
+		next++
+	}
+	out := make([]int, len(at))
+	for i := range out {
+		v, ok := at[i]
+		if !ok {
+			return nil, false
+		}
+		out[i] = v
+	}
+	return out, true
 }
 
-func extractPypiFacts(repo string) (*pypiFacts, error) {
-	dir := filepath.Join(repo, "util", "resolve", "pypi")
-	out := &pypiFacts{Markers: map[string]string{}}
-
-	// internal.Markers
-	ef, err := parseFile(filepath.Join(dir, "internal", "env.gen.go"))
-	if err != nil {
-		return nil, err
-	}
-	mk, ok := findValue(ef, token.VAR, "Markers").(*ast.CompositeLit)
-	if !ok {
-		// not written as a literal: take the values the linked code holds at run time
-		mk = &ast.CompositeLit{}
-		_, platform := rpypi.VerifEnvironment()
-		for k, v := range platform {
-			out.Markers[k] = v
+// opTexts reads T.String() for the values 0..n-1.
+func opTexts(p *packages.Package, t *types.Named, n int) ([]string, error) {
+	var fd *ast.FuncDecl
+	for _, f := range p.Syntax {
+		for _, d := range f.Decls {
+			x, ok := d.(*ast.FuncDecl)
+			if !ok || x.Recv == nil || x.Name.Name != "String" || x.Body == nil || len(x.Recv.List) != 1 {
+				continue
+			}
+			if tv, ok := p.TypesInfo.Types[x.Recv.List[0].Type]; ok && types.Identical(tv.Type, t) {
+				fd = x
+			}
 		}
 	}
-	for _, el := range mk.Elts {
-		kv, ok := el.(*ast.KeyValueExpr)
-		if !ok {
-			return nil, fmt.Errorf("Markers: element is not key: value")
-		}
-		k, ok1 := strLit(kv.Key)
-		v, ok2 := strLit(kv.Value)
-		if !ok1 || !ok2 {
-			return nil, fmt.Errorf("Markers: non-literal entry")
-		}
-		if _, dup := out.Markers[k]; dup {
-			return nil, fmt.Errorf("Markers: duplicate key %q", k)
-		}
-		out.Markers[k] = v
+	if fd == nil {
+		return nil, fmt.Errorf("pypi: type %s has no String method", t.Obj().Name())
 	}
-
-	mf, err := parseFile(filepath.Join(dir, "markers.go"))
-	if err != nil {
-		return nil, err
-	}
-	// markerOp constants in iota order.
-	for _, d := range mf.Decls {
-		gd, ok := d.(*ast.GenDecl)
-		if !ok || gd.Tok != token.CONST {
-			continue
-		}
-		isOps := false
-		for i, s := range gd.Specs {
-			vs := s.(*ast.ValueSpec)
-			if i == 0 {
-				if id, ok := vs.Type.(*ast.Ident); ok && id.Name == "markerOp" && len(vs.Values) == 1 {
-					if v, ok := vs.Values[0].(*ast.Ident); ok && v.Name == "iota" {
-						isOps = true
+	texts := map[int]string{}
+	deflt, hasDeflt := "", false
+	var tableErr error
+	ast.Inspect(fd.Body, func(nd ast.Node) bool {
+		switch x := nd.(type) {
+		case *ast.SliceExpr:
+			// stringer: NAME[INDEX[i]:INDEX[i+1]] with a constant NAME and a table INDEX
+			name, ok := fw.EvalStr(p, x.X)
+			lo, ok2 := ast.Unparen(x.Low).(*ast.IndexExpr)
+			if !ok || !ok2 {
+				return true
+			}
+			id, ok := ast.Unparen(lo.X).(*ast.Ident)
+			if !ok {
+				return true
+			}
+			offs, ok := intElems(p, varInit(p, p.TypesInfo.Uses[id]))
+			if !ok {
+				return true
+			}
+			if len(offs) != n+1 {
+				tableErr = fmt.Errorf("the String tables of %s are stale: %d offsets for %d constants", t.Obj().Name(), len(offs), n)
+				return true
+			}
+			for i := 0; i+1 < len(offs); i++ {
+				if offs[i] < 0 || offs[i] > offs[i+1] || offs[i+1] > len(name) {
+					tableErr = fmt.Errorf("the String index table of %s is out of range", t.Obj().Name())
+					return true
+				}
+				texts[i] = name[offs[i]:offs[i+1]]
+			}
+		case *ast.CaseClause:
+			// switch i { case A, B: return "text" }
+			if len(x.Body) != 1 {
+				return true
+			}
+			rs, ok := x.Body[0].(*ast.ReturnStmt)
+			if !ok || len(rs.Results) != 1 {
+				return true
+			}
+			s, ok := fw.EvalStr(p, rs.Results[0])
+			if !ok {
+				return true
+			}
+			if x.List == nil {
+				deflt, hasDeflt = s, true
+			}
+			for _, e := range x.List {
+				if tv, ok := p.TypesInfo.Types[e]; ok && tv.Value != nil && types.Identical(tv.Type, t) {
+					if v, ok := constant.Int64Val(constant.ToInt(tv.Value)); ok {
+						texts[int(v)] = s
 					}
 				}
 			}
-			if !isOps {
-				break
+		case *ast.IndexExpr:
+			// TABLE[i] with TABLE a package-level literal of constant strings (keyed or positional)
+			id, ok := ast.Unparen(x.X).(*ast.Ident)
+			if !ok {
+				return true
 			}
-			if i > 0 && (vs.Type != nil || len(vs.Values) != 0) {
-				return nil, fmt.Errorf("markerOp const block: entry %d is not an implicit iota repetition", i)
+			o, ok := p.TypesInfo.Uses[id].(*types.Var)
+			if !ok || o.Parent() != p.Types.Scope() {
+				return true
 			}
-			if len(vs.Names) != 1 {
-				return nil, fmt.Errorf("markerOp const block: multiple names in one spec")
+			cl, ok := ast.Unparen(varInit(p, o)).(*ast.CompositeLit)
+			if !ok {
+				return true
 			}
-			out.OpNames = append(out.OpNames, vs.Names[0].Name)
+			next := 0
+			for _, el := range cl.Elts {
+				val := el
+				if kv, ok := el.(*ast.KeyValueExpr); ok {
+					k, ok := fw.EvalInt(p, kv.Key)
+					if !ok {
+						return true
+					}
+					next, val = int(k), kv.Value
+				}
+				if s, ok := fw.EvalStr(p, val); ok {
+					texts[next] = s
+				}
+				next++
+			}
 		}
+		return true
+	})
+	if tableErr != nil {
+		return nil, tableErr
 	}
-	if len(out.OpNames) == 0 {
-		return nil, fmt.Errorf("markers.go: markerOp iota block not found")
-	}
-	opIndex := map[string]int{}
-	for i, n := range out.OpNames {
-		opIndex[n] = i
-	}
-	// markerOpsByLength
-	bl, ok := findValue(mf, token.VAR, "markerOpsByLength").(*ast.CompositeLit)
-	if !ok {
-		return nil, fmt.Errorf("markers.go: markerOpsByLength is not a composite literal")
-	}
-	for _, el := range bl.Elts {
-		id, ok := el.(*ast.Ident)
+	out := make([]string, n)
+	for v := 0; v < n; v++ {
+		s, ok := texts[v]
+		if !ok && hasDeflt {
+			s, ok = deflt, true
+		}
 		if !ok {
-			return nil, fmt.Errorf("markerOpsByLength: non-identifier element")
+			return nil, fmt.Errorf("pypi: cannot read %s(%d).String() from the source (not stringer tables, a switch over constants or a keyed table); a run-time hook is needed", t.Obj().Name(), v)
 		}
-		i, ok := opIndex[id.Name]
-		if !ok {
-			return nil, fmt.Errorf("markerOpsByLength: unknown op %s", id.Name)
-		}
-		out.ByLength = append(out.ByLength, i)
+		out[v] = s
 	}
-	// environmentVariables
-	ev, ok := findValue(mf, token.VAR, "environmentVariables").(*ast.CompositeLit)
-	if !ok {
-		// not written as a literal (built in init(), by a helper, ...): take the table the
-		// linked code holds at run time (hook pypi.VerifEnvironment; sorted by key)
-		ev = &ast.CompositeLit{}
-		vars, _ := rpypi.VerifEnvironment()
-		out.EnvVars = append(out.EnvVars, vars...)
+	return out, nil
+}
+
+func extractPypiFacts(repo string) (*pypiFacts, error) {
+	out := &pypiFacts{Markers: map[string]string{}}
+
+	// the environment, as the linked code holds it
+	vars, platform := rpypi.VerifEnvironment()
+	for k, v := range platform {
+		out.Markers[k] = v
 	}
 	seen := map[string]bool{}
-	for _, el := range ev.Elts {
-		kv, ok := el.(*ast.KeyValueExpr)
-		if !ok {
-			return nil, fmt.Errorf("environmentVariables: element is not key: value")
+	for _, e := range vars {
+		if seen[e[0]] {
+			return nil, fmt.Errorf("environmentVariables: duplicate key %q", e[0])
 		}
-		k, ok := strLit(kv.Key)
-		if !ok {
-			return nil, fmt.Errorf("environmentVariables: non-literal key")
-		}
-		if seen[k] {
-			return nil, fmt.Errorf("environmentVariables: duplicate key %q", k)
-		}
-		seen[k] = true
-		switch v := kv.Value.(type) {
-		case *ast.CallExpr: // platformVar("name")
-			fn, ok := v.Fun.(*ast.Ident)
-			if !ok || fn.Name != "platformVar" || len(v.Args) != 1 {
-				return nil, fmt.Errorf("environmentVariables[%q]: unexpected call", k)
-			}
-			arg, ok := strLit(v.Args[0])
-			if !ok {
-				return nil, fmt.Errorf("environmentVariables[%q]: non-literal argument", k)
-			}
-			val, ok := out.Markers[arg]
-			if !ok {
-				// platformVar panics at package init: no marker can be evaluated.
-				return nil, fmt.Errorf("environmentVariables[%q]: platformVar(%q) is undefined in internal.Markers", k, arg)
-			}
-			out.EnvVars = append(out.EnvVars, [3]string{k, arg, val})
-		case *ast.CompositeLit: // {name: "extra"}
-			var name, value string
-			for _, fe := range v.Elts {
-				fkv, ok := fe.(*ast.KeyValueExpr)
-				if !ok {
-					return nil, fmt.Errorf("environmentVariables[%q]: positional literal", k)
-				}
-				s, ok := strLit(fkv.Value)
-				if !ok {
-					return nil, fmt.Errorf("environmentVariables[%q]: non-literal field", k)
-				}
-				switch fkv.Key.(*ast.Ident).Name {
-				case "name":
-					name = s
-				case "value":
-					value = s
-				default:
-					return nil, fmt.Errorf("environmentVariables[%q]: field %s", k, fkv.Key.(*ast.Ident).Name)
-				}
-			}
-			out.EnvVars = append(out.EnvVars, [3]string{k, name, value})
-		default:
-			return nil, fmt.Errorf("environmentVariables[%q]: unexpected value expression", k)
-		}
+		seen[e[0]] = true
+		out.EnvVars = append(out.EnvVars, e)
 	}
+	sort.SliceStable(out.EnvVars, func(i, j int) bool { return out.EnvVars[i][0] < out.EnvVars[j][0] })
 
-	// String() texts from the stringer output.
-	sf, err := parseFile(filepath.Join(dir, "markerop_string.go"))
+	p, err := fw.LoadPkg(filepath.Join(repo, "util", "resolve", "pypi"))
 	if err != nil {
 		return nil, err
 	}
-	nameConst, ok := strLit(findValue(sf, token.CONST, "_markerOp_name"))
-	if !ok {
-		return nil, fmt.Errorf("markerop_string.go: _markerOp_name not found")
-	}
-	idx, ok := findValue(sf, token.VAR, "_markerOp_index").(*ast.CompositeLit)
-	if !ok {
-		return nil, fmt.Errorf("markerop_string.go: _markerOp_index not found")
-	}
-	var offs []int
-	for _, el := range idx.Elts {
-		b, ok := el.(*ast.BasicLit)
+	// the operator type and the by-length table: the package-level []T variable with T a
+	// package-local integer type that has constants
+	var opType *types.Named
+	var table *types.Var
+	for _, n := range p.Types.Scope().Names() {
+		v, ok := p.Types.Scope().Lookup(n).(*types.Var)
 		if !ok {
-			return nil, fmt.Errorf("_markerOp_index: non-literal")
+			continue
 		}
-		n, err := strconv.Atoi(b.Value)
-		if err != nil {
-			return nil, err
+		var elem types.Type
+		switch u := v.Type().Underlying().(type) {
+		case *types.Slice:
+			elem = u.Elem()
+		case *types.Array:
+			elem = u.Elem()
+		default:
+			continue
 		}
-		offs = append(offs, n)
+		if nt := localIntType(p, elem); nt != nil && len(constsOf(p, nt)) >= 2 {
+			if table != nil {
+				return nil, fmt.Errorf("pypi: two candidate operator tables (%s, %s)", table.Name(), v.Name())
+			}
+			opType, table = nt, v
+		}
 	}
-	if len(offs) != len(out.OpNames)+1 {
-		return nil, fmt.Errorf("markerop_string.go is stale: %d offsets for %d constants", len(offs), len(out.OpNames))
+	if table == nil {
+		return nil, fmt.Errorf("pypi: no package-level table of operator constants found")
 	}
-	for i := 0; i+1 < len(offs); i++ {
-		if offs[i] > offs[i+1] || offs[i+1] > len(nameConst) {
-			return nil, fmt.Errorf("_markerOp_index out of range")
+	byVal := constsOf(p, opType)
+	n := len(byVal)
+	for v := 0; v < n; v++ {
+		if len(byVal[int64(v)]) == 0 {
+			return nil, fmt.Errorf("pypi: the constants of %s are not the values 0..%d", opType.Obj().Name(), n-1)
 		}
-		out.OpStrings = append(out.OpStrings, nameConst[offs[i]:offs[i+1]])
+	}
+	if out.OpStrings, err = opTexts(p, opType, n); err != nil {
+		return nil, err
+	}
+	// labels by role
+	used := map[string]bool{}
+	for v, s := range out.OpStrings {
+		label, ok := pep508Ops[s]
+		if !ok {
+			label = "markerOpUnknown"
+		}
+		if used[label] {
+			label = fmt.Sprintf("%s#%d", label, v) // two values print alike / two non-operators: the ties will refuse
+		}
+		used[label] = true
+		out.OpNames = append(out.OpNames, label)
+	}
+	// the by-length table
+	elems, ok := intElems(p, varInit(p, table))
+	if !ok {
+		return nil, fmt.Errorf("pypi: %s is not a literal of constants; reading it needs the hook pypi.VerifMarkerOps (see gen.go)", table.Name())
+	}
+	for _, v := range elems {
+		if v < 0 || v >= n {
+			return nil, fmt.Errorf("pypi: %s holds %d, not a declared operator", table.Name(), v)
+		}
+		out.ByLength = append(out.ByLength, v)
 	}
 	return out, nil
 }
@@ -272,7 +381,7 @@ func genPypiEnv(repo string) (string, error) {
 		keys = append(keys, k)
 	}
 	sort.Strings(keys)
-	b.WriteString("/-- `internal.Markers` (env.gen.go), sorted by key: the fixed target environment. -/\n")
+	b.WriteString("/-- `internal.Markers` as the linked code holds it, sorted by key: the fixed target environment. -/\n")
 	b.WriteString("def markers : List (List UInt8 × List UInt8) :=\n  [")
 	for i, k := range keys {
 		if i > 0 {
@@ -281,7 +390,7 @@ func genPypiEnv(repo string) (string, error) {
 		fmt.Fprintf(&b, "(%s /- %s -/, %s /- %s -/)", fw.LeanBytes(k), commentSafe(k), fw.LeanBytes(f.Markers[k]), commentSafe(f.Markers[k]))
 	}
 	b.WriteString("]\n\n")
-	b.WriteString("/-- `environmentVariables` (markers.go) in source order: (key, markerVar.name, markerVar.value). -/\n")
+	b.WriteString("/-- `environmentVariables` as the linked code holds it, sorted by key: (key, markerVar.name, markerVar.value). -/\n")
 	b.WriteString("def envVars : List (List UInt8 × List UInt8 × List UInt8) :=\n  [")
 	for i, e := range f.EnvVars {
 		if i > 0 {
@@ -290,7 +399,7 @@ func genPypiEnv(repo string) (string, error) {
 		fmt.Fprintf(&b, "(%s /- %s -/, %s, %s)", fw.LeanBytes(e[0]), commentSafe(e[0]), fw.LeanBytes(e[1]), fw.LeanBytes(e[2]))
 	}
 	b.WriteString("]\n\n")
-	b.WriteString("/-- `markerOp` constant names in iota order (index = value). -/\n")
+	b.WriteString("/-- label of each `markerOp` value (index = value): the PEP 508 operator its `String()` prints. -/\n")
 	b.WriteString("def opNames : List String :=\n  [")
 	for i, n := range f.OpNames {
 		if i > 0 {
@@ -299,7 +408,7 @@ func genPypiEnv(repo string) (string, error) {
 		b.WriteString(fw.LeanStr(n))
 	}
 	b.WriteString("]\n\n")
-	b.WriteString("/-- `markerOp.String()` for each value (markerop_string.go). -/\n")
+	b.WriteString("/-- `markerOp.String()` for each value. -/\n")
 	b.WriteString("def opStrings : List (List UInt8) :=\n  " + leanBytesList(f.OpStrings) + "\n\n")
 	b.WriteString("/-- `markerOpsByLength` as markerOp values. -/\n")
 	b.WriteString("def markerOpsByLength : List Nat := [")
